@@ -407,11 +407,14 @@ structure UnsolDecision where
   confirm : Bool
 deriving DecidableEq, Repr, Inhabited
 
-/-- `Association::handle_unsolicited_response` + the confirm rule of `handle_unsolicited` -/
+/-- `Association::handle_unsolicited_response` + the confirm rule of `handle_unsolicited`.
+    A fragment whose objects do not parse is ignored before anything else happens (it is not
+    remembered as the last fragment, not reported, not confirmed). -/
 def handleUnsolicited (integrityComplete : Bool) (last : Option UnsolKey) (r : Resp) : UnsolDecision :=
   if integrityComplete || r.raw.isEmpty then
-    if last = some r.key then ⟨true, true, false, r.ctrl.con⟩
-    else ⟨true, false, r.objects.isSome, r.ctrl.con⟩
+    if r.objects.isNone then ⟨false, false, false, false⟩
+    else if last = some r.key then ⟨true, true, false, r.ctrl.con⟩
+    else ⟨true, false, true, r.ctrl.con⟩
   else ⟨false, false, false, false⟩
 
 -- ------------------------------------------------------------------------------------------
